@@ -1862,4 +1862,13 @@ theorem certInfeas_sound (p : Prob) (ys : List Rat) (h : p.certInfeas ys = true)
   rw [LPM.LP.checkInfeas_sound _ _ hck _] at this
   exact Bool.noConfusion this
 
+/-- the optimal value of a problem is unique: two optima of the same problem have the same objective value -/
+theorem isOpt_value_unique (p : Prob) (x x' : V → Rat) (h : p.IsOpt x) (h' : p.IsOpt x') : p.value x = p.value x' := by
+  have a := h.2 x' h'.1
+  have b := h'.2 x h.1
+  by_cases hm : p.dirMax = true
+  · simp only [hm, if_true] at a b; exact le_antisymm b a
+  · have hm' : p.dirMax = false := by simpa using hm
+    simp only [hm', Bool.false_eq_true, if_false] at a b; exact le_antisymm a b
+
 end AuxM
